@@ -836,7 +836,7 @@ class DataType(object):
         elif split_data_type[1] in ['tinyint', 'smallint', 'mediumint', 'int', 'bigint']:
             try:
                 return {'%d' % int(value) for value in values}
-            except (TypeError, ValueError):
+            except (TypeError, ValueError, OverflowError):
                 raise EDXMLEventValidationError(
                     'Invalid integer value in list: "%s"' % '","'.join([repr(value) for value in values])
                 )
@@ -850,7 +850,7 @@ class DataType(object):
                         # like NaN or INF
                         raise ValueError
                     normalized.add('%E' % float(value))
-            except ValueError:
+            except (TypeError, ValueError, OverflowError):
                 raise EDXMLEventValidationError(
                     'Invalid floating point value in list: "%s"' % '","'.join([repr(value) for value in values])
                 )
@@ -897,7 +897,7 @@ class DataType(object):
         if split_data_type[1] == 'point':
             try:
                 return {'%.6f,%.6f' % tuple(float(coord) for coord in value.split(',')) for value in values}
-            except (ValueError, TypeError):
+            except (ValueError, TypeError, AttributeError):
                 raise EDXMLEventValidationError(
                     'Invalid geo:point value in list: "%s"' % '","'.join([repr(value) for value in values])
                 )
